@@ -10,3 +10,21 @@ func (v *VM) VerifRefs() int { return int(v.refs) }
 // VerifGasPico returns the gas consumed so far in the VM's internal unit
 // (picoGAS) and whether it fits uint64.
 func (v *VM) VerifGasPico() (uint64, bool) { return v.gasConsumed.Uint64(), v.gasConsumed.IsUint64() }
+
+// VerifTryStack returns, innermost first, the exception handling contexts of c as
+// (state, has catch, has finally) with state 0 = try, 1 = catch, 2 = finally.
+func (c *Context) VerifTryStack() [][3]int {
+	res := make([][3]int, 0, c.tryStack.Len())
+	for i := range c.tryStack.Len() {
+		e := c.tryStack.Peek(i).Value().(*exceptionHandlingContext)
+		t := [3]int{int(e.State), 0, 0}
+		if e.HasCatch() {
+			t[1] = 1
+		}
+		if e.HasFinally() {
+			t[2] = 1
+		}
+		res = append(res, t)
+	}
+	return res
+}
